@@ -1,7 +1,7 @@
 (* C11 — property theorems only.  Every proof is `exact <lemma>` or a closed computation on a refutation witness. *)
 From Coq Require Import List NArith ZArith Bool.
 Import ListNotations.
-From VF Require Import C11.Model C11.Proofs C11.ProofsB C11.ProofsF C11.Corr C11.ProofsS C11.ProofsL.
+From VF Require Import C11.Model C11.Proofs C11.ProofsB C11.ProofsF C11.ProofsR C11.Corr C11.ProofsS C11.ProofsL.
 Local Open Scope N_scope.
 
 (* The in-memory provider (repaired Query) returns, for EVERY operation sequence from EVERY content, exactly what the
@@ -46,15 +46,15 @@ Print Assumptions cached_asis_refuted.
 (* The batching wrapper, any size limit (also 0 and negative), over ANY provider that simulates the contract:
    the contract state is the provider's state with the queued operations applied in order. *)
 Theorem batched_transparent : forall l pers (P : prov) R,
-  sim wf_op pers P R -> sim wf_op pers (batched l P) (batched_rel l R).
-Proof. intros l pers P R H. apply batched_sim; [exact wf_op_batch|exact H|auto|reflexivity|reflexivity]. Qed.
+  sim wf_op pers P R -> sim wf_op pers (batched l P) (batched_rel wf_bop l R).
+Proof. intros l pers P R H. apply batched_sim; [exact wf_op_batch|exact H|exact put_wf_bop|reflexivity|auto|reflexivity|reflexivity]. Qed.
 Print Assumptions batched_transparent.
 
 Theorem batched_transparent_over_populated : forall l pers (P : prov) R m a ops,
   sim wf_op pers P R -> R m a -> forallb wf_op ops = true ->
   run (batched l P) (m, []) ops = run (spec_prov pers) a ops.
 Proof. intros l pers P R m a ops HS HR Hops.
-  apply (sim_run wf_op pers (batched l P) (batched_rel l R)); [apply batched_transparent; assumption|assumption|].
+  apply (sim_run wf_op pers (batched l P) (batched_rel wf_bop l R)); [apply batched_transparent; assumption|assumption|].
   apply batched_rel_fresh; assumption. Qed.
 Print Assumptions batched_transparent_over_populated.
 
@@ -90,6 +90,55 @@ Print Assumptions formatted_det_transparent.
 Theorem formatter_instances_ok : fmt_ok noop_fmt /\ fmt_ok b64_fmt.
 Proof. split; [exact noop_ok|exact b64_ok]. Qed.
 Print Assumptions formatter_instances_ok.
+
+(* formattedstore with RANDOM (non-deterministic) key formatting, for any formatter satisfying fmt_ok, over ANY provider
+   that simulates the contract: the provider holds exactly one entry per key of the contract state, under a formatted
+   key that is never the empty string and never one of the ids still to be drawn, carrying the internal tag
+   Key:base64(key).  Covers: lookup through the Key tag, overwrite under the found formatted key, batches (key
+   resolution inside the batch: put/delete/put of one key, deletes of absent keys, an all-no-op batch), Deformat and
+   the removal of the Key tag from what the caller sees.  Guard wfk_op: single-criterion queries, well-formed batches,
+   no user tag or criterion named "Key". *)
+Theorem formatted_rand_transparent : forall (F : formatter) pers (P : prov) R,
+  fmt_ok F -> sim wf1_op pers P R -> sim wfk_op pers (formatted_rand true F P) (rand_rel F P R).
+Proof. intros F pers P R HF HP. apply formatted_rand_sim; assumption. Qed.
+Print Assumptions formatted_rand_transparent.
+
+(* the batch as found (an all-no-op batch reaches the store as an empty batch and fails): refuted -- obs #12,
+   corpus/C11/formatted-random-batch-delete-absent.json *)
+Theorem formatted_rand_asis_refuted :
+  let ops := [Batch [(1, 0, [])]; Put 2 1 [(1, 1)]; Batch [(1, 0, []); (3, 0, [])]; Get 2] in
+  run (formatted_rand false b64_fmt (mem true)) ([], 0) ops <> run (spec_prov false) [] ops /\
+  run (formatted_rand true b64_fmt (mem true)) ([], 0) ops = run (spec_prov false) [] ops.
+Proof. split; vm_compute; [discriminate|reflexivity]. Qed.
+Print Assumptions formatted_rand_asis_refuted.
+
+(* stacks with a random-key formatting layer: any caching/batching layers above it, any plain stack (caching, batching,
+   deterministic formatting over mem) below it *)
+Theorem rand_stack_refines : forall s ops, rand_stack s = true -> forallb wfk_op ops = true ->
+  run (prov_of s) (init (prov_of s)) ops = run (spec_prov false) [] ops.
+Proof. intros s ops Hs Hops. apply (sim_run wfk_op false (prov_of s) (rstack_rel s));
+  [apply rand_stack_sim; assumption|assumption|apply rand_stack_rel_init; assumption]. Qed.
+Print Assumptions rand_stack_refines.
+
+Theorem rand_stack_rewrap_refines : forall s pre ops, rand_stack s = true ->
+  forallb wfk_op pre = true -> forallb wfk_op ops = true ->
+  run (prov_of s) (rewrap s (run_state (prov_of s) (init (prov_of s)) pre)) ops =
+  run (spec_prov false) (run_state (spec_prov false) [] pre) ops.
+Proof. intros s pre ops Hs Hpre Hops.
+  apply (sim_run wfk_op false (prov_of s) (rstack_rel s)); [apply rand_stack_sim; assumption|assumption|].
+  apply rand_stack_rel_rewrap; [assumption|].
+  apply (sim_run_state wfk_op false (prov_of s) (rstack_rel s)); [apply rand_stack_sim; assumption|assumption|apply rand_stack_rel_init; assumption]. Qed.
+Print Assumptions rand_stack_rewrap_refines.
+
+(* non-vacuity; the history of the seeded change C11-3 (Put k; Batch[Delete k; Put k]; Delete k) is in it *)
+Example rand_stack_nonvacuous :
+  let s := SBatched 2 (SCached (SFmtR FB64 (SCached SMem))) in
+  let ops := [Put 1 1 [(1, 1)]; Batch [(1, 0, []); (1, 2, [(2, 2)])]; Get 1; GetTags 1; Delete 1; Get 1; Query [(2, 0)];
+              Batch [(2, 1, []); (2, 0, []); (2, 3, [(1, 2)]); (3, 0, [])]; Query [(1, 2)]; GetBulk [1; 2; 3]] in
+  rand_stack s = true /\ forallb wfk_op ops = true /\
+  run (prov_of s) (init (prov_of s)) ops =
+  [ODone; ODone; OVal 2; OTags [(2, 2)]; ODone; ONotFound; OQuery []; ODone; OQuery [(2, (3, [(1, 2)]))]; OBulk [0; 3; 0]].
+Proof. vm_compute. repeat split. Qed.
 
 (* stacks of caching, batching AND formatting wrappers of any depth over the in-memory provider *)
 Theorem plain_stack_refines : forall s ops, plain_stack s = true -> forallb wf1_op ops = true ->
